@@ -312,9 +312,7 @@ class FnFilterLoop(_FilterBase):
 # ================================================================================================
 # Fn.merge
 
-from vt.stubs import jnp as jnp_stub  # noqa: E402
-
-core.jnp = jnp_stub.namespace()
+from . import _patch  # noqa: E402,F401
 
 
 def abstract_map2(name, special=None, nonempty=None):
